@@ -21,11 +21,14 @@ def run_counts(ctx, cases, kinds, variants, key):
     # the independent oracle (segmented sieve in python) is computed up-front in parallel
     import multiprocessing
     uniq = sorted(set((a, b) for (a, b, kb, why) in cases))
-    big = [iv for iv in uniq if iv[1] >= 2 * 10 ** 15 and iv[0] <= iv[1]]
-    uniq_small = [iv for iv in uniq if iv not in big]
+    huge = [iv for iv in uniq if iv[1] - iv[0] > 3 * 10 ** 7 and iv[0] >= 10 ** 13]
+    big = [iv for iv in uniq if iv[1] >= 2 * 10 ** 15 and iv[0] <= iv[1] and iv not in huge]
+    uniq_small = [iv for iv in uniq if iv not in big and iv not in huge]
     with multiprocessing.Pool(ps.NPROC) as pool:
         exp_cache = dict(zip(uniq_small, pool.starmap(_oracle_counts, uniq_small, chunksize=4)))
     exp_cache.update(dict(zip(big, countlib.mr_counts(big))))
+    for iv in huge:      # prime count only (additive over pieces); k-tuplet kinds are not run on these
+        exp_cache[iv] = [countlib.mr_prime_count_pieces(*iv)] + [None] * 5
     for (a, b) in uniq:
         dist["total_numbers"] += max(0, b - a)
     for variant in variants:
@@ -33,7 +36,10 @@ def run_counts(ctx, cases, kinds, variants, key):
         lines = []
         for (a, b, kb, why) in cases:
             for k in kinds:
-                lines.append(("COUNT %d %d %d %d %d" % (k, a, b, [1, 1, 2, 4, 16][(a + b + k) % 5], kb), (a, b, kb, why, k)))
+                if exp_cache[(a, b)][k - 1] is None:
+                    continue
+                nthreads = 1 if why.startswith("sieve array above") else [1, 1, 2, 4, 16][(a + b + k) % 5]
+                lines.append(("COUNT %d %d %d %d %d" % (k, a, b, nthreads, kb), (a, b, kb, why, k)))
         sh = ps.shard(lines)
         outs = ps.par_run(probe, ["\n".join(l for _, (l, _) in s) + "\n" for s in sh], timeout=900)
         for s, (rc, o, e) in zip(sh, outs):
@@ -63,7 +69,7 @@ def run_counts(ctx, cases, kinds, variants, key):
 def correspond(ctx, scale=1):
     rng = ctx.rng
     scale *= 4 if ctx.thorough else 1
-    cases = countlib.seam_cases(rng, 110 * scale) + countlib.shape_cases(rng, 160 * scale) + countlib.exhaustive_small(40) + countlib.top_cases(rng, 3 * scale)
+    cases = countlib.seam_cases(rng, 110 * scale) + countlib.shape_cases(rng, 160 * scale) + countlib.exhaustive_small(40) + countlib.top_cases(rng, 3 * scale) + countlib.big_sieve_cases(rng, 1 if scale == 1 else 3)
     variants = ("default", "portable") if ctx.thorough else ("default",)
     ev, mm, samples, sigs, dist = run_counts(ctx, cases, [1], variants, "count-primes")
     # segment skeleton: the segments the real Erat sieves vs the geometry model, at every magnitude (cheap: no sieving primes)
